@@ -3,8 +3,8 @@ package main
 // Ghost state and structured-concurrency rules (DESIGN §2.7). Hooks called from the generator.
 
 import (
-	"go/constant"
 	"fmt"
+	"go/constant"
 	"go/token"
 	"go/types"
 	"math/big"
